@@ -1,4 +1,5 @@
 //! Runtime-monitoring harness for Nashtare/winterfell (see /verif/DESIGN.md).
+pub mod coin;
 pub mod fields;
 pub mod gen;
 pub mod json;
